@@ -5,7 +5,7 @@ use passage_adapters::authentication::minecraft_hash;
 use serde_json::json;
 use std::sync::atomic::{AtomicU64, Ordering};
 
-fn reference(server_id: &str, secret: &[u8], key: &[u8]) -> String {
+pub fn reference(server_id: &str, secret: &[u8], key: &[u8]) -> String {
     let mut all = server_id.as_bytes().to_vec();
     all.extend_from_slice(secret);
     all.extend_from_slice(key);
@@ -100,6 +100,15 @@ pub fn run(cli: Cli) -> ! {
         rep.finish();
     }
     let rep = Report::new("C11", cli.tier, "exploration");
+    core(&rep, cli.tier.thorough());
+    rep.finish()
+}
+
+/// The enumeration of the hash function itself (everything but the whole-connection histories, which
+/// need sockets and live in netsim's C11).
+pub fn core(rep: &Report, thorough: bool) {
+
+    let classes: [AtomicU64; 7] = Default::default();
     let seed = common::seed();
     let evals = AtomicU64::new(0);
 
@@ -116,7 +125,7 @@ pub fn run(cli: Cli) -> ! {
         // split the name over the three parts in every way
         for i in 0..=name.len() {
             for j in i..=name.len() {
-                check(&rep, &name[..i], name[i..j].as_bytes(), name[j..].as_bytes(), &classes);
+                check(rep, &name[..i], name[i..j].as_bytes(), name[j..].as_bytes(), &classes);
                 evals.fetch_add(1, Ordering::Relaxed);
             }
         }
@@ -127,7 +136,7 @@ pub fn run(cli: Cli) -> ! {
     let keys: Vec<Vec<u8>> = vec![vec![], vec![0x30], der];
     let long300 = "s".repeat(300);
     let sids: [&str; 9] = ["", "a", "justchunks", "exactly-twenty-chars", "twenty-one-characters", "mc.some-rather-long-host-name.example.org", "sérvér-😀", &long300, "exactly-twenty-charsX"];
-    let n: u64 = if cli.tier.thorough() { 1 << 20 } else { 1 << 14 };
+    let n: u64 = if thorough { 1 << 20 } else { 1 << 14 };
     let chunks = 256usize;
     par_for(chunks, |c| {
         let lo = n * c as u64 / chunks as u64;
@@ -137,7 +146,7 @@ pub fn run(cli: Cli) -> ! {
             let secret = ctr.to_be_bytes();
             for sid in sids {
                 for key in &keys {
-                    check(&rep, sid, &secret, key, &classes);
+                    check(rep, sid, &secret, key, &classes);
                 }
             }
         }
@@ -155,13 +164,13 @@ pub fn run(cli: Cli) -> ! {
         }
     }
     par_for(shorts.len(), |i| {
-        check(&rep, "", &shorts[i], &[], &classes);
-        check(&rep, "srv", &shorts[i], &[0x30, 0x81], &classes);
+        check(rep, "", &shorts[i], &[], &classes);
+        check(rep, "srv", &shorts[i], &[0x30, 0x81], &classes);
         evals.fetch_add(2, Ordering::Relaxed);
     });
 
     // 4. a third, unrelated reference: Python's hashlib and big-integer arithmetic on 2 000 of the inputs
-    let py_checked = python_cross_check(&rep, &sids, &keys, seed);
+    let py_checked = python_cross_check(rep, &sids, &keys, seed);
     rep.set("python_hashlib_cross_checked", json!(py_checked));
 
     let cl: Vec<u64> = classes.iter().map(|a| a.load(Ordering::Relaxed)).collect();
@@ -185,5 +194,4 @@ pub fn run(cli: Cli) -> ! {
     rep.sample(json!({"published": "jeb_", "hash": reference("jeb_", &[], &[])}));
     rep.assume("the edge digest 0x80 00..00 is not reachable through the public function (probability 2^-160) and is not covered");
     rep.assume("the reference SHA-1 is validated against the FIPS 'abc' vector and the three published Minecraft vectors at start-up");
-    rep.finish()
 }
